@@ -154,6 +154,14 @@ def gen_pipeline_stages():
             raise ExtractError(f"cache.rs::source_hash: the source {comp} no longer reaches the hasher in a recognised way")
         comps[comp] = via_hash or with_len
     key_delimited = all(comps.values())
+    # VMStage: a VM per executed source unless the caller handed one in (repair of KF-C16-4)
+    vmrs = strip_comments(rd("driver/src/pipeline/stages/vm.rs"))
+    vexe = _fn_body(_impl_body(vmrs, "Stage", "VMStage") or "", "execute")
+    takes = re.search(r"if\s+self\s*\.\s*([a-z_]+)\s*\{\s*self\s*\.\s*vm\s*\.\s*take\(\)\s*\}\s*else\s*\{\s*None\s*\}", vexe)
+    flag_ok = bool(takes and re.search(r"fn\s+new\s*\(\)[^}]*" + takes.group(1) + r"\s*:\s*false", vmrs, flags=re.S)
+                   and re.search(r"fn\s+with_vm\s*\([^)]*\)[^}]*" + takes.group(1) + r"\s*:\s*true", vmrs, flags=re.S))
+    if not flag_ok and not re.search(r"self\s*\.\s*vm\s*\.\s*take\(\)", vexe):
+        raise ExtractError("stages/vm.rs: VMStage::execute no longer recognisable")
     heap = strip_comments(rd("bytecode/src/heap/mod.rs"))
     body = _impl_body(heap, "Clone", "Heap")
     if body is None:
@@ -176,6 +184,8 @@ def gen_pipeline_stages():
     out.append(f"(* `impl Clone for Heap`: clone() is `Self::new()` *)\nDefinition heap_clone_is_empty : bool := {'true' if empty else 'false'}.\n")
     out.append("(* source_hash feeds the name and the content to the hasher each with a delimiter (str::hash / length prefix) *)\n"
                f"Definition cache_key_components_delimited : bool := {'true' if key_delimited else 'false'}.\n")
+    out.append("(* VMStage::new() runs every source in a VM of its own; only a VM supplied with with_vm() is reused *)\n"
+               f"Definition vm_stage_fresh_vm_per_run : bool := {'true' if flag_ok else 'false'}.\n")
     out.append("(* does the cache ever hold a StageOutput::Compiled (whose clone is not faithful)? *)\n"
                f"Definition compiled_outputs_are_cached : bool := {'true' if compiled_cached else 'false'}.\n")
     return write_if_changed("PipelineStages.v", "".join(out))
